@@ -10,9 +10,10 @@ for f in sorted(glob.glob("/tmp/seedlog*.txt")):
     cur = None
     section = None
     for ln in open(f, errors="replace"):
-        m = re.match(r"^##### /tmp/seed2?-(C\d+)/out/change(\d) \((C\d+)\)", ln)
+        m = re.match(r"^##### /tmp/seed(2?)-(C\d+)/out/change(\d) \((C\d+)\)", ln)
         if m:
-            cur = rows.setdefault("%s-change%s" % (m.group(1), m.group(2)), {"build": "?", "tests": "?", "with": "?", "without": "?", "check": "?"})
+            n = int(m.group(3)) + (2 if m.group(1) else 0)      # second-wave seeds are stored as change3 / change4
+            cur = rows.setdefault("%s-change%d" % (m.group(2), n), {"build": "?", "tests": "?", "with": "?", "without": "?", "check": "?"})
             section = None
             continue
         if cur is None:
